@@ -76,7 +76,7 @@ func c05Check(c scriptCase) []rep.Finding { return lockstep(c, nil).fs }
 
 func init() {
 	p := register(&Prop{ID: "C05", Level: "model_checking",
-		Rule: "explicit-state exploration of the real interpreter in lockstep with a reference model of the BSV script rules (certified on all 1438 node vectors of script_tests.json, verdict and error name): after every instruction the AfterStep snapshot (data and alt stack) must equal the reference's, and the final verdict must agree. Spaces: (1) operand grid: every opcode byte 0x00..0xff x every tuple of edge operands (arity 1 and 2 over the full edge set, arity 3 over a 12-value subset; shift counts 0..8n+1 for operand lengths 0..3) x both eras x covering flag sets, and all 512 subsets of the nine non-signature flags for the flag-sensitive opcodes, CLTV/CSV against 7x3 transaction contexts; (2) every byte string of length<=2 (quick) / <=3 (thorough) as locking script x 4 seed unlocking scripts x 2 eras (+MINIMALDATA); (3) breadth-first program exploration with canonical-state deduplication over a 15-symbol control-flow alphabet (incl. a non-minimal push) (depth 7/8) and a 51-symbol mixed alphabet (stack, alt, splice, bitwise, shift, arithmetic, hash opcodes, 8 pushes) (depth 3/4) from empty and seeded stacks, every path the rules end inside an open conditional also with its blocks closed (and a true value appended); (3b) the same search on the unlocking side (control-flow alphabet + alt-stack, DUP, CODESEPARATOR; depth 4/5) against 7 fixed locking scripts, deciding what may cross the script boundary; (4) P2SH / limit templates, and P2SH spends of EVERY redeem script of up to two bytes (x clean-stack on/off x with/without an extra item underneath); (5) option forms: ~3,800 cases (every opcode, P2SH spends, OP_RETURN/ELSE/big-number programs x 7 flag words) each requested through 6 equivalent option lists and on an Engine value that executed other programs (other era, P2SH, early return, unbalanced conditional) before (WithAfterGenesis/WithForkID/WithP2SH before or after WithFlags(rest), the flag word split over two WithFlags calls, overlapping, followed by WithFlags(0), WithFlags before WithTx): verdict equals the reference's for the flag word. Scripts whose execution reaches a signature opcode are left to C06. states = distinct canonical machine states (stacks, condition stack, era+flags) seen in snapshots; transitions = instructions executed in lockstep; traces = executions compared",
+		Rule: "explicit-state exploration of the real interpreter in lockstep with a reference model of the BSV script rules (certified on all 1438 node vectors of script_tests.json, verdict and error name): after every instruction the AfterStep snapshot (data and alt stack) must equal the reference's, and the final verdict must agree. Spaces: (1) operand grid: every opcode byte 0x00..0xff x every tuple of edge operands (arity 1 and 2 over the full edge set, arity 3 over a 12-value subset; shift counts 0..8n+1 for operand lengths 0..3) x both eras x covering flag sets, and all 512 subsets of the nine non-signature flags for the flag-sensitive opcodes, CLTV/CSV against 7x3 transaction contexts; (2) every byte string of length<=2 (quick) / <=3 (thorough) as locking script x 4 seed unlocking scripts x 2 eras (+MINIMALDATA); (3) breadth-first program exploration with canonical-state deduplication over a 15-symbol control-flow alphabet (incl. a non-minimal push) (depth 7/8) and a 51-symbol mixed alphabet (stack, alt, splice, bitwise, shift, arithmetic, hash opcodes, 8 pushes) (depth 3/4) from empty and seeded stacks, every path the rules end inside an open conditional also with its blocks closed (and a true value appended); (3b) the same search on the unlocking side (control-flow alphabet + alt-stack, DUP, CODESEPARATOR; depth 4/5) against 7 fixed locking scripts, deciding what may cross the script boundary; (3c) values pushed or computed (OP_CAT, OP_INVERT twice, in either script), duplicated, both views then transformed by every opcode 0x4f..0xff with different operands; (4) P2SH / limit templates, and P2SH spends of EVERY redeem script of up to two bytes (x clean-stack on/off x with/without an extra item underneath); (5) option forms: ~3,800 cases (every opcode, P2SH spends, OP_RETURN/ELSE/big-number programs x 7 flag words) each requested through 6 equivalent option lists and on an Engine value that executed other programs (other era, P2SH, early return, unbalanced conditional) before (WithAfterGenesis/WithForkID/WithP2SH before or after WithFlags(rest), the flag word split over two WithFlags calls, overlapping, followed by WithFlags(0), WithFlags before WithTx): verdict equals the reference's for the flag word. Scripts whose execution reaches a signature opcode are left to C06. states = distinct canonical machine states (stacks, condition stack, era+flags) seen in snapshots; transitions = instructions executed in lockstep; traces = executions compared",
 	})
 	NewSpace(p, "grid", c05Check)
 	NewSpace(p, "bytes", c05Check)
@@ -115,6 +115,11 @@ func init() {
 		c05Bytes(r, p, chk, thorough)
 		c05BFS(r, p, chk, thorough)
 		c05UnlockBFS(r, p, chk, thorough)
+		// computed values with two live views, both transformed (family A2 of C08): the second result must
+		// not rewrite the first
+		(&Space[scriptCase]{P: p, Name: "grid", Check: chk}).Each(r, func(yield func(scriptCase)) {
+			twoStageCases([][]byte{{0x01, 0x80}, {0x81}, {0x01, 0x02}, {0x00, 0x80}, {0x01, 0x02, 0x03, 0x80}, fill(8, 0x81)}, yield)
+		})
 		c05Templates(r, p, chk, thorough)
 		c05P2SHAll(r, p, chk)
 		c05Options(r, spOpt, thorough)
